@@ -435,12 +435,14 @@ class Path:
         self.taken: list[bool] = []
         self.alternatives: list[list[bool]] = []
         self.pc: list = []
+        self.pc_tags: dict = {}   # formula id -> 'assume' | 'oblige' (everything else is a branch decision)
         self.solver = z3.SimpleSolver()
         self.solver.set("timeout", feas_timeout)
         self.solver.set("mbqi", False)
         for a in axioms:
             self.sadd(a)
             self.pc.append(a)
+            self.pc_tags[a.get_id()] = "assume"
         self.heap: dict[str, object] = {}  # ty.key() -> z3 array Int -> content
         self.heap_ty: dict[str, Ty] = {}
         self.fields: dict[tuple, object] = {}  # (cls, fname) -> z3 array Int -> sort
@@ -504,6 +506,7 @@ class Path:
         if z3.is_true(f):
             return
         self.pc.append(f)
+        self.pc_tags[f.get_id()] = "assume"
         self.sadd(f)
         if why:
             self.assumed.append(why)
@@ -516,6 +519,7 @@ class Path:
         self.obligations.append(ob)
         # assumed afterwards (standard assert-then-assume)
         self.pc.append(f)
+        self.pc_tags[f.get_id()] = "oblige"
         self.sadd(f)
         return ob
 
@@ -606,6 +610,8 @@ class Path:
             c = t2.empty() if not zs else (zs[0] if len(zs) == 1 else z3.Concat(*zs))
             return self.new_ref(t2, c).z
         if isinstance(ty, TOpt):
+            if isinstance(v, SV) and isinstance(v.ty, TOpt) and v.ty.sort() == ty.sort():
+                return v.z
             if ty.inner.is_ref:
                 if v is None:
                     return z3.IntVal(0)
